@@ -80,6 +80,10 @@ def gen_case(rng, p_ops=0.85, p_pause=0.35):
                 o = {'at': at, 'op': 'stop', 'state': rng.choice(['CANCELLED', 'CANCELLED', 'CANCELLED', 'ERROR', 'SUCCESS']),
                      'which': rng.randint(0, 7), 'pref': rng.choice(prefs + (['root', 'root', 'paused'] if paused else [])),
                      'msg': 'msg%d' % i}
+                if paused and rng.random() < 0.5:
+                    # pause-then-cancel: PAUSED sub-workflows below PAUSED tasks must be cancelled too
+                    o['state'] = 'CANCELLED'
+                    o['pref'] = rng.choice(['root', 'root', 'parent', 'again'])
             case['ops'].append(o)
     return case
 
